@@ -298,6 +298,9 @@ def classify(stmts, cond="HAlways"):
         elif kind == "if" and re.match(r"if\s*\(\s*old_(read_markers|reset_marker_reader)\s*\)$", norm(a)) and \
                 re.match(r"dinfo->marker->(read_markers|reset_marker_reader)\s*=\s*old_(read_markers|reset_marker_reader)\s*;?$", norm(b)):
             out.append("HRestoreMarkerMethods %s" % cond)
+        elif kind == "if" and re.match(r"if\s*\(\s*old_start_input_pass\s*\)$", norm(a)) and \
+                re.match(r"dinfo->inputctl->start_input_pass\s*=\s*old_start_input_pass\s*;?$", norm(b)):
+            out.append("HRestoreStartInputPass %s" % cond)
         elif kind == "if":
             c, raw = cond_of(a)
             inner = split_stmts(b)
@@ -702,7 +705,7 @@ Inductive hstmt :=
   | HRetval (c : hcond) (v : Z) | HGotoBailout (c : hcond) | HReturn (c : hcond)
   | HAbortC (c : hcond) | HAbortD (c : hcond) | HTermDest (c : hcond)
   | HFree (c : hcond) (what : string) | HDestroyTmp (c : hcond) | HFclose (c : hcond) | HWarnRet
-  | HRestoreMarkerMethods (c : hcond)
+  | HRestoreMarkerMethods (c : hcond) | HRestoreStartInputPass (c : hcond)
   | HOther (c : hcond) (text : string).
 Record apifn := { fn_name : string; fn_file : string; fn_uses_c : bool; fn_uses_d : bool; fn_tmp_instance : bool;
                   fn_handlers : list (list hstmt); fn_bailout : option (list hstmt); fn_throws : Z }.
